@@ -172,6 +172,7 @@ package security
 
 import (
 	"fmt"
+	"reflect"
 	"regexp"
 	"strings"
 	"sync"
@@ -565,6 +566,49 @@ func (s *Scanner) scanStatement(stmt ast.Statement, result *ScanResult) {
 		s.scanDeleteStatement(st, result)
 	case *ast.SetOperation:
 		s.scanSetOperation(st, result)
+		return // its operands are statements and have just been scanned
+	}
+
+	// Statements nested inside this one (sub-queries in any clause, derived
+	// tables, CTE bodies, the query of INSERT ... SELECT) are scanned like
+	// top-level ones; each is reached once.
+	if stmt != nil {
+		s.scanNestedStatements(stmt, result)
+	}
+}
+
+// isScannableStatement reports whether scanStatement has a case for n.
+func isScannableStatement(n ast.Node) (ast.Statement, bool) {
+	switch st := n.(type) {
+	case *ast.SelectStatement:
+		return st, st != nil
+	case *ast.InsertStatement:
+		return st, st != nil
+	case *ast.UpdateStatement:
+		return st, st != nil
+	case *ast.DeleteStatement:
+		return st, st != nil
+	case *ast.SetOperation:
+		return st, st != nil
+	}
+	return nil, false
+}
+
+// scanNestedStatements scans the statements found below parent, without
+// descending into them (scanStatement does that for each of them).
+func (s *Scanner) scanNestedStatements(parent ast.Node, result *ScanResult) {
+	for _, child := range parent.Children() {
+		if child == nil {
+			continue
+		}
+		if rv := reflect.ValueOf(child); rv.Kind() == reflect.Ptr && rv.IsNil() {
+			continue
+		}
+		if st, ok := isScannableStatement(child); ok {
+			s.scanStatement(st, result)
+			continue
+		}
+		s.scanNestedStatements(child, result)
 	}
 }
 
@@ -580,9 +624,16 @@ func (s *Scanner) scanSelectStatement(stmt *ast.SelectStatement, result *ScanRes
 		s.scanExpression(stmt.Having, result, "HAVING clause")
 	}
 
-	// Check for suspicious function calls in columns
+	// Check JOIN conditions
+	for i := range stmt.Joins {
+		if stmt.Joins[i].Condition != nil {
+			s.scanExpression(stmt.Joins[i].Condition, result, "JOIN condition")
+		}
+	}
+
+	// Check select list expressions (calls, CASE conditions, ...)
 	for _, col := range stmt.Columns {
-		s.scanExpressionForDangerousFunctions(col, result)
+		s.scanExpression(col, result, "select list")
 	}
 }
 
@@ -591,7 +642,7 @@ func (s *Scanner) scanInsertStatement(stmt *ast.InsertStatement, result *ScanRes
 	// Check values for suspicious patterns (multi-row support)
 	for _, row := range stmt.Values {
 		for _, val := range row {
-			s.scanExpressionForDangerousFunctions(val, result)
+			s.scanExpression(val, result, "VALUES")
 		}
 	}
 }
@@ -605,7 +656,7 @@ func (s *Scanner) scanUpdateStatement(stmt *ast.UpdateStatement, result *ScanRes
 
 	// Check SET values
 	for _, assignment := range stmt.Assignments {
-		s.scanExpressionForDangerousFunctions(assignment.Value, result)
+		s.scanExpression(assignment.Value, result, "SET value")
 	}
 }
 
@@ -649,6 +700,24 @@ func (s *Scanner) scanExpression(expr ast.Expression, result *ScanResult, contex
 	case *ast.UnaryExpression:
 		if e.Expr != nil {
 			s.scanExpression(e.Expr, result, context)
+		}
+	default:
+		// CASE, IN lists, BETWEEN bounds, casts, aliases, tuples, ...: the
+		// conditions and calls inside them count like any other. Nested
+		// statements are left to scanNestedStatements.
+		for _, child := range expr.Children() {
+			if child == nil {
+				continue
+			}
+			if _, isStmt := isScannableStatement(child); isStmt {
+				continue
+			}
+			if ce, ok := child.(ast.Expression); ok {
+				if rv := reflect.ValueOf(ce); rv.Kind() == reflect.Ptr && rv.IsNil() {
+					continue
+				}
+				s.scanExpression(ce, result, context)
+			}
 		}
 	}
 }
@@ -766,6 +835,11 @@ func (s *Scanner) checkUnionInjection(stmt *ast.SetOperation, result *ScanResult
 					nullCount++
 				}
 			}
+			if lit, ok := col.(*ast.LiteralValue); ok && lit != nil {
+				if lit.Value == nil || strings.EqualFold(lit.Type, "null") {
+					nullCount++
+				}
+			}
 		}
 
 		// Multiple NULLs in UNION SELECT is suspicious
@@ -878,7 +952,10 @@ func (s *Scanner) scanFunctionCall(fn *ast.FunctionCall, result *ScanResult) {
 
 	// Recursively check function arguments
 	for _, arg := range fn.Arguments {
-		s.scanExpressionForDangerousFunctions(arg, result)
+		s.scanExpression(arg, result, "function argument")
+	}
+	if fn.Filter != nil {
+		s.scanExpression(fn.Filter, result, "FILTER clause")
 	}
 }
 
